@@ -214,7 +214,7 @@ func (V *Verifier) queryText(o *Oblig) string {
 			b.WriteString(d)
 			b.WriteString("\n")
 		}
-		inst := V.instantiateUnfolds(o.lemmaBody, o.lemmaFuel)
+		inst := V.instantiateUnfolds(o.lemmaBody, o.lemmaFuel, o.lemmaOpaque...)
 		b.WriteString(V.relevantAxioms(inst + o.lemmaBody))
 		b.WriteString(inst)
 		b.WriteString(o.lemmaBody)
@@ -230,7 +230,7 @@ func (V *Verifier) queryText(o *Oblig) string {
 
 // instantiateUnfolds adds (F.unfold args) for every ground application
 // (F args) occurring in text — "fuel" levels deep.
-func (V *Verifier) instantiateUnfolds(text string, fuel int) string {
+func (V *Verifier) instantiateUnfolds(text string, fuel int, opaque ...string) string {
 	want := map[string]bool{}
 	for f := range V.unfolds {
 		want[f] = true
@@ -269,6 +269,15 @@ func (V *Verifier) instantiateUnfolds(text string, fuel int) string {
 			}
 			uf := V.unfolds[app.Head()]
 			if uf == nil || len(uf.Args) != len(app.List)-1 {
+				continue
+			}
+			skip := false
+			for _, op := range opaque {
+				if !app.List[1].IsL && app.List[1].Atom == op {
+					skip = true
+				}
+			}
+			if skip {
 				continue
 			}
 			// expand the body of F.unfold with the actual arguments so that
@@ -316,7 +325,11 @@ func (V *Verifier) prepare() {
 
 // discharge runs all obligations in parallel.
 func (V *Verifier) discharge(obls []*Oblig) {
+	tp := time.Now()
 	V.prepare()
+	if os.Getenv("BXV_TIMING") != "" {
+		fmt.Fprintf(os.Stderr, "prepare: %.1fs\n", time.Since(tp).Seconds())
+	}
 	sem := make(chan struct{}, 14)
 	var wg sync.WaitGroup
 	for _, o := range obls {
@@ -329,8 +342,21 @@ func (V *Verifier) discharge(obls []*Oblig) {
 		go func() {
 			defer wg.Done()
 			defer func() { <-sem }()
+			tq := time.Now()
 			text := V.queryText(o)
-			o.Res = solve(text, V.Workdir, o.Name, V.Timeout, V.Tier == "thorough", !o.ExpectSat)
+			o.GenSecs = time.Since(tq).Seconds()
+			if os.Getenv("BXV_TRACE") != "" {
+				defer func() {
+					fmt.Fprintf(os.Stderr, "%6.2f-%6.2f %s %s\n", tq.Sub(tp).Seconds(), time.Since(tp).Seconds(), o.Res.Verdict, o.Name)
+				}()
+			}
+			if o.ExpectSat {
+				// vacuity canary: only "unsat" matters; one solver, short budget
+				v, out, secs := runSolverText(solvers[0], text, V.Workdir, o.Name, 3*time.Second)
+				o.Res = SolveResult{Verdict: v, Solver: solvers[0].name, Secs: secs, Output: out}
+			} else {
+				o.Res = solve(text, V.Workdir, o.Name, V.Timeout, V.Tier == "thorough", true)
+			}
 			if o.Res.Verdict != Unsat {
 				o.Text = text
 			}
